@@ -111,6 +111,18 @@ func docVariant(kind, id string) *sbom.Document {
 		n.ProtoReflect().SetUnknown(protowire.AppendVarint(protowire.AppendTag(nil, 999, protowire.VarintType), 7))
 		d.NodeList.Nodes = []*sbom.Node{n}
 		d.ProtoReflect().SetUnknown(protowire.AppendString(protowire.AppendTag(nil, 1000, protowire.BytesType), "future"))
+	case "big-1.5MiB", "big-9MiB":
+		// size classes: one long text attribute / many nodes (limits and buffers are invisible to documents of 400 bytes)
+		d.Metadata.Name = kind
+		sz := map[string]int{"big-1.5MiB": 3 << 19, "big-9MiB": 9 << 20}[kind]
+		d.NodeList.Nodes = []*sbom.Node{{Id: "a", Description: strings.Repeat("0123456789abcdef", sz/16)}}
+		d.NodeList.RootElements = []string{"a"}
+	case "many-20000-nodes":
+		d.Metadata.Name = kind
+		for i := 0; i < 20000; i++ {
+			d.NodeList.Nodes = append(d.NodeList.Nodes, &sbom.Node{Id: fmt.Sprintf("n%05d", i), Name: "node with an ordinary name", Version: "1.2.3", Hashes: map[int32]string{3: "aabbccddeeff00112233445566778899"}})
+		}
+		d.NodeList.RootElements = []string{"n00000"}
 	case "d3":
 		d.Metadata.Name = "three"
 		d.NodeList.Nodes = []*sbom.Node{{Id: "a"}, {Id: "b"}, {Id: "c", Description: strings.Repeat("long description ", 20)}}
